@@ -178,6 +178,10 @@ class C08(MTCheck):
                             acts.append("tc%d" % rng.randint(0, 1))
                         elif r < 0.93 and use_q:
                             acts.append("q")
+                        elif r < 0.97 and k == 0 and use_raw and li < nl - 1:
+                            # an event handler unregisters the user raw event (a descriptor that may have been reported
+                            # in the same kernel batch as the kick) and registers it again
+                            acts.append(rng.choice(["ru0", "ru0 rr0", "ru0"]))
                         else:
                             acts.append("y")
                     lists.append(" ".join(acts) if acts else "-")
